@@ -820,6 +820,7 @@ Proof.
     - eapply Inv_view; [|exact I]. eapply same_view_trans; [apply sv_set_hdr|]. eapply same_view_trans; [apply sv_set_script|apply sv_set_consumed].
     - change (pcof (set_consumed (set_script (set_hdr s (overwrite (s_hdr s) got g)) sc') (s_consumed s ++ g)) t) with (pcof s t). rewrite P. reflexivity.
     - change (pcof (set_consumed (set_script (set_hdr s (overwrite (s_hdr s) got g)) sc') (s_consumed s ++ g)) t) with (pcof s t). rewrite P. reflexivity.
+    - change (pcof (set_consumed (set_script (set_hdr s (overwrite (s_hdr s) got g)) sc') (s_consumed s ++ g)) t) with (pcof s t). rewrite P. reflexivity.
     - change (pcof (set_consumed (set_script (set_hdr s (overwrite (s_hdr s) got g)) sc') (s_consumed s ++ g)) t) with (pcof s t). rewrite P. reflexivity. }
   assert (P1t : pcof s1 t = PHdrRead otag (got + length g) dl) by (unfold s1; rewrite pcof_set_pc, Nat.eqb_refl; reflexivity).
   assert (ND1 : pcof s1 t <> PDone) by (rewrite P1t; discriminate).
